@@ -44,6 +44,9 @@ def gen_tuning(r):
         t["ACK_RANDOM_FACTOR"] = r.choice([1.0, 1.5, 2.0, 4.0, round(r.uniform(1, 4), 3)])
     if r.chance(0.8):
         t["MAX_RETRANSMIT"] = r.randint(0, 7)
+    if t and r.chance(0.35):
+        # where the values live: on a subclass (default), on the instance, or set by the tuning's __init__
+        t["_style"] = r.choice(["instance", "init"])
     return t
 
 
